@@ -25,18 +25,25 @@ func init() {
 	subs["bomb"] = bombChild
 }
 
-var c16Shapes = []struct{ name, open, close string }{
-	{"arrays", "[", "]"},
-	{"objects", `{"k":`, "}"},
-	{"mixed", `[{"k":`, "}]"},
-	{"spaced-arrays", " [ ", " ] "},
-	{"obj-arr", `{"a":[`, "]}"},
-	{"objects-space-after-colon", `{"k": `, "}"},
-	{"objects-ws-everywhere", "{ \"k\" :\r\n\t", " } "},
+var c16Shapes = []struct {
+	name, open, close string
+	wide              bool // not a tower: `depth` members / elements on ONE level
+}{
+	{"arrays", "[", "]", false},
+	{"objects", `{"k":`, "}", false},
+	{"mixed", `[{"k":`, "}]", false},
+	{"spaced-arrays", " [ ", " ] ", false},
+	{"obj-arr", `{"a":[`, "]}", false},
+	{"objects-space-after-colon", `{"k": `, "}", false},
+	{"objects-ws-everywhere", "{ \"k\" :\r\n\t", " } ", false},
 	// the nested child is not the first member / element of its parent
-	{"second-member", `{"a":0,"b":`, "}"},
-	{"second-element", "[0,", "]"},
-	{"after-siblings", `{"a":[],"b":{},"c":"s","d":`, "}"},
+	{"second-member", `{"a":0,"b":`, "}", false},
+	{"second-element", "[0,", "]", false},
+	{"after-siblings", `{"a":[],"b":{},"c":"s","d":`, "}", false},
+	// flat but very long: the stack must not grow with the number of members
+	{"wide-object", `"a":0`, "", true},
+	{"wide-array", `0`, "", true},
+	{"wide-object-of-arrays", `"a":[1,{"b":2}]`, "", true},
 }
 
 // bombInput: lead 0 none, 1 = 1 KiB of whitespace, 2 = the tower is the second
@@ -62,7 +69,25 @@ func bombInput(shape, depth int, closed bool, lead int) []byte {
 		sb.WriteString("},")
 		tail = "]"
 	}
-	sb.Grow(depth*(len(s.open)+len(s.close)) + 8)
+	sb.Grow(depth*(len(s.open)+len(s.close)+1) + 8)
+	if s.wide {
+		op, cl := byte('{'), byte('}')
+		if s.open[0] != '"' {
+			op, cl = '[', ']'
+		}
+		sb.WriteByte(op)
+		for i := 0; i < depth; i++ {
+			if i > 0 {
+				sb.WriteByte(',')
+			}
+			sb.WriteString(s.open)
+		}
+		if closed {
+			sb.WriteByte(cl)
+			sb.WriteString(tail)
+		}
+		return sb.Bytes()
+	}
 	for i := 0; i < depth; i++ {
 		sb.WriteString(s.open)
 	}
@@ -159,6 +184,13 @@ func c16RunChild(c *core.Ctx, cs *core.Case) (bool, string, string) {
 			return false, "C16/within-cap-not-json/" + shape, fmt.Sprintf("%s: closed nesting within the cap is not reported as JSON: %s", desc, strings.TrimSpace(out))
 		}
 	}
+	if c16Shapes[cs.Ints[0]].wide {
+		// one nesting level whatever the length: a closed document is JSON
+		if closed && !isJSON {
+			return false, "C16/wide-flat-document-not-json/" + shape, fmt.Sprintf("%s: a flat document of %d members is not reported as JSON: %s", desc, depth, strings.TrimSpace(out))
+		}
+		return true, "", strings.TrimSpace(out)
+	}
 	if depth >= 8192 && isJSON {
 		return false, "C16/beyond-cap-still-json/" + shape, fmt.Sprintf("%s: nesting far beyond the cap is reported as JSON (limit mode %d): %s", desc, lm, strings.TrimSpace(out))
 	}
@@ -189,7 +221,7 @@ func c16Run(c *core.Ctx) {
 						for entry := 0; entry <= 1; entry++ {
 							if d >= 1000000 && !c.Thorough() {
 								// quick: the largest bombs only in the modes the statement names
-								if lm > 1 || lead == 1 || (entry == 1 && lm != 0) || (d > 1000000 && (si == 3 || si == 4 || si >= 7)) || (lead >= 2 && (lm != 0 || entry == 1)) {
+								if lm > 1 || lead == 1 || (entry == 1 && lm != 0) || (d > 1000000 && (si == 3 || si == 4 || (si >= 7 && !c16Shapes[si].wide))) || (lead >= 2 && (lm != 0 || entry == 1)) {
 									continue
 								}
 							}
